@@ -1,4 +1,6 @@
 #!/bin/sh
-# builds the checker atomically (running background evaluations keep the old binary)
+# builds the checker (offline); VERIF_DIR=<worktree of /verif> builds that copy instead
+V=${VERIF_DIR:-/verif}
 export GOFLAGS=-mod=mod GOPROXY=off GOSUMDB=off GOTOOLCHAIN=local; unset GOWORK
-cd /verif/checker && go build -o /verif/bin/pongocheck.new . && mv /verif/bin/pongocheck.new /verif/bin/pongocheck
+mkdir -p $V/bin
+cd $V/checker && go build -o $V/bin/pongocheck.new . && mv $V/bin/pongocheck.new $V/bin/pongocheck
